@@ -178,7 +178,7 @@ var cellPool = []string{
 	"", "", "a", "b", "ab", "abc", "1", "-7", "2.5", "true", " a", "a ", " ", "a b",
 	`"`, `""`, `a"b`, `"a"`, `a""`, `"a`, ",", "a,b", ",,", ";", "a;b", "\t", "|",
 	"\n", "a\nb", "\n\n", "l1\nl2\n", "\r\n", "a\r\nb", "x\r\n", "\r\n\r\n", "\"\r\n\"", "\",\"",
-	`\.`, "\x00", "\xff\xfe", "\xc3\xa5", "a\"\nb,c\"\"", "0123456789abcdef", "0123456789abcde",
+	`\.`, "\x00", "\xff\xfe", "\xc3\xa5", "\ufeff", "\ufeffa", "a\"\nb,c\"\"", "0123456789abcdef", "0123456789abcde",
 }
 
 // cells with a bare CR: only used in the malformed stream
@@ -600,24 +600,34 @@ func parseTable(delim byte, extra [][][]byte, docs ...[]byte) string {
 
 // ---------------------------------------------------------------- family readcsv
 
-var intCells = []string{"0", "1", "-7", "007", "+3", "42", "9223372036854775807", "-9223372036854775808", "9223372036854775808", "1_000", "0x10", " 1", "1 "}
+var intCells = []string{"0", "1", "-7", "007", "+3", "42", "9223372036854775807", "00000000000000000042", "-00000000000000000007", "-9223372036854775808", "9223372036854775808", "1_000", "0x10", " 1", "1 ",
+	"18446744073709551617", "99999999999999999999", "36893488147419103232", "-18446744073709551615", "000000000009223372036854775808"}
+
+const wellFormedInts = 9
 var floatCells = []string{"2.5", "1e3", "-0", "inf", "-Inf", "+Inf", "NaN", "nan", ".5", "5.", "1e400", "0x1p-2", "4.9e-324", "1_0.5", "1,5", "Infinity", "1e-400"}
 var boolCells = []string{"true", "false", "T", "F", "1", "0", "TRUE", "False", "t", "f", "tRUE", "yes"}
-var nameCells = []string{"A", "B", "C", "A", "", "", "A0", "A1", "B0", "$x", `"q"`, "'q'", `"`, "''", " n", "col 1", "a,b", "x\ny", "\u00e5", "int"}
+var nameCells = []string{"A", "B", "C", "A", "", "", "\ufeffid", "A0", "A1", "B0", "$x", `"q"`, "'q'", `"`, "''", " n", "col 1", "a,b", "x\ny", "\u00e5", "int"}
 var typePool = []string{"int", "float", "bool", "string", "string", "enum", "enum", "", "", "foo", "Int"}
 
 func genTypedColumn(r *hlib.Rng, n int) [][]byte {
-	kind := r.Intn(6)
+	kind := r.Intn(7)
 	col := make([][]byte, n)
+	special := r.Intn(n + 1)
 	for i := range col {
 		var s string
 		switch kind {
+		case 6: // whole numbers, one of them of 20 and more digits (beyond uint64 as well as int64)
+			s = intCells[r.Intn(wellFormedInts)]
+			if i == special || r.Chance(1, 6) {
+				s = []string{"18446744073709551617", "36893488147419103232", "20000000000000000000", "-40000000000000000000", "184467440737095516160", "18446744073709551616",
+					"00000000000000000000017", "-18446744073709551616", "27670116110564327424"}[r.Intn(9)]
+			}
 		case 0:
-			s = intCells[r.Intn(7)] // well-formed ints
+			s = intCells[r.Intn(wellFormedInts)] // well-formed ints
 		case 1:
 			s = floatCells[r.Intn(len(floatCells))]
 			if r.Chance(1, 3) {
-				s = intCells[r.Intn(7)]
+				s = intCells[r.Intn(wellFormedInts)]
 			}
 		case 2:
 			s = boolCells[r.Intn(len(boolCells))]
@@ -856,8 +866,8 @@ func familyRead(s *hlib.Suite, r *hlib.Rng, n int, thorough bool) {
 
 // ---------------------------------------------------------------- family roundtrip
 
-var rtNames = []string{"A", "B", "C", "D", "col 1", " x", "x ", "a,b", `q"uote`, "new\nline", "ü", "\xff\xfe", "1", "true", `\.`, "'", "a'b'"}
-var rtStrings = []string{"", "", "a", "b", "abc", " lead", "trail ", " ", `"`, `""`, `a"b`, `"quoted"`, ",", "a,b", ",,", "\n", "a\nb", "l1\nl2\n",
+var rtNames = []string{"A", "B", "C", "D", "\ufeffid", "\ufeff", "col 1", " x", "x ", "a,b", `q"uote`, "new\nline", "ü", "\xff\xfe", "1", "true", `\.`, "'", "a'b'"}
+var rtStrings = []string{"", "", "a", "b", "abc", "\ufeffabc", "\ufeff", " lead", "trail ", " ", `"`, `""`, `a"b`, `"quoted"`, ",", "a,b", ",,", "\n", "a\nb", "l1\nl2\n",
 	`\.`, `\`, "\t", "\ttab", " nbsp", "\u0085", " em", "　", "\xc2", "\xe2\x80", "\xff", "\xc3\x28", "1", "true", "NaN", "åäö", "x;y", "'", "a\"\nb,c\"\"",
 	"0123456789012345678901234567890123456789"}
 var rtCRStrings = []string{"a\r\nb", "\r\n", "x\r\n", "a\r", "\r", "a\rb"}
@@ -1098,6 +1108,9 @@ func familyLong(s *hlib.Suite, r *hlib.Rng, n int) {
 	for it := 0; it < n; it++ {
 		ncols := 1 + r.Intn(3)
 		nshort := r.Intn(400)
+		if r.Chance(1, 8) {
+			nshort = 4090 + r.Intn(5000) // more rows than any initial capacity of the per-column buffers
+		}
 		names := make([][]byte, ncols)
 		for j := range names {
 			names[j] = []byte{byte('A' + j)}
